@@ -133,6 +133,14 @@ def call_wrapper(wrap, line, rec, target, **kw):
             lex(line, "\\" if target == "python" else "&")
         except ValueError:
             rec.count("unbalanced_lines_refused")
+            # a refused line must leave nothing behind: the lines that follow it (an empty one, one that starts
+            # with a blank) are judged by the same contract
+            for follow in ("", "  call foo(a, b)", "\tx = 1"):
+                try:
+                    wrap(follow, **kw)
+                    rec.count("lines_wrapped_right_after_a_refused_line")
+                except ValueError:
+                    pass
             return None
         rec.violation("wrapper-refuses-a-token-sequence", f"[{target}] {type(ex).__name__}: {ex} for {line!r}",
                       dict(kw, line=line, target=target))
@@ -176,6 +184,14 @@ def run_tokens(shard, rec):
         for i in range(shard["count"]):
             level = rng.choice([0, 0, 1, 1, 2, 3, 4, 6, 8])
             width = rng.choice([12, 14, 16, 20, 24, 30, 40, 50, 60, 72, 80, 80, 100])
+            if i % 40 == 17:
+                # a line the wrapper has to refuse (a quote that is never closed), for either target
+                bad = rng.choice(["write(*,*) 'oops", 'x = y ! see "Notes', "print('no closing quote"])
+                if rng.random() < 0.5:
+                    call_wrapper(F_wrap, bad, rec, "fortran", level=level, width=width, indentation=" ")
+                else:
+                    call_wrapper(P_wrap, bad, rec, "python", level=level, width=width)
+                mon.flush(rec)
             cls = i % 10
             if cls < 5:
                 line = gen_python_line(rng)
